@@ -160,14 +160,19 @@ def ob_four_users_handover(h0: int, s1: int, s2: int, s3: int, h1: int, h2: int,
     return _scenario([False, False, False, True], [0, s1, s2, s3], [h0, h1, h2, h3], [False] * 4, [0] * 4, yields=[0, 0, y2, y3])
 
 
-@obligation(quick=120, thorough=400, partitions_quick=[f"cy == {c}" for c in range(4)], partitions_thorough=[f"cy == {c} and s2 == {a}" for c in range(4) for a in range(3)],
+H0C = B(2, 3)
+S2C = B(2, 3)
+X1C = B(3, 5)
+
+
+@obligation(quick=120, thorough=400, partitions_quick=[f"cy == {c}" for c in range(4)], partitions_thorough=[f"cy == {c} and s2 == {a}" for c in range(4) for a in range(4)],
             what="3 users of ONE key: a holder, a queued waiter that is cancelled at a symbolic instant and cy loop iterations INTO that instant "
                  "(so the cancellation can land after the holder's release of the same instant handed the lock over, before the waiter resumed), "
                  "and a second waiter behind it: exclusion, the second waiter and every non-cancelled user enter, no residue",
-            bounds={"users": "3 on one key", "start": "0 / 0..1 / 0..2", "hold": "1..2, 0..1, 0..1", "cancel instant": "0..3", "extra loop iterations before the cancel": "0..3"})
+            bounds={"users": "3 on one key", "start": "0 / 0..1 / 0..2 (thorough 0..3)", "hold": "1..2 (thorough 1..3), 0..1, 0..1", "cancel instant": "0..3 (thorough 0..5)", "extra loop iterations before the cancel": "0..3"})
 def ob_cancel_at_handover(h0: int, s1: int, s2: int, h1: int, h2: int, x1: int, cy: int) -> bool:
     """
-    pre: 1 <= h0 <= 2 and 0 <= s1 <= 1 and 0 <= s2 <= 2 and 0 <= h1 <= 1 and 0 <= h2 <= 1 and 0 <= x1 <= 3 and 0 <= cy <= 3
+    pre: 1 <= h0 <= H0C and 0 <= s1 <= 1 and 0 <= s2 <= S2C and 0 <= h1 <= 1 and 0 <= h2 <= 1 and 0 <= x1 <= X1C and 0 <= cy <= 3
     post: _
     """
     cy = 0 if cy == 0 else (1 if cy == 1 else (2 if cy == 2 else 3))
